@@ -168,7 +168,7 @@ func c15Render(c *Config) string {
 
 func TestVerifC15Sources(t *testing.T) {
 	L := ev.Begin("C15", "c15-sources", "exploration",
-		"the option list is derived from config/load.go at check time (every f.<Kind>Var registration); per option two well-formed values of its kind (grammar-specific values for validated options; for free-form strings also the empty string, values that begin or end with a quote and values that contain 'test.', 'cfg' or look like -v). (1) equivalence: the value given on the command line, as FABIO_NAME, fabio_name, FaBiO_NaMe, plain NAME and in a properties file yields six reflect.DeepEqual configurations that differ from the default; (2) precedence: for every option and every ordered pair of the four source classes with two different values the result equals the higher source alone; (3) an ill-typed value (duration without unit, number with a letter) for every typed option as FABIO_NAME and in the properties file is refused with an error, as it is on the command line, not skipped. non-trivial = every (option, value, source) triple")
+		"the option list is derived from config/load.go at check time (every f.<Kind>Var registration); per option two well-formed values of its kind (grammar-specific values for validated options; for free-form strings also the empty string, values that begin or end with a quote and values that contain 'test.', 'cfg' or look like -v, and values outside ASCII). (1) equivalence: the value given on the command line, as FABIO_NAME, fabio_name, FaBiO_NaMe, plain NAME and in a properties file yields six reflect.DeepEqual configurations that differ from the default; (2) precedence: for every option and every ordered pair of the four source classes with two different values the result equals the higher source alone; (3) an ill-typed value (duration without unit, number with a letter) for every typed option as FABIO_NAME and in the properties file is refused with an error, as it is on the command line, not skipped. non-trivial = every (option, value, source) triple")
 	opts := c15Options()
 	// values that are easy to lose on the way: the empty string, and values that begin or end with a quote
 	opts = append(opts,
@@ -179,6 +179,9 @@ func TestVerifC15Sources(t *testing.T) {
 		c15Opt{"ui.title", "String", []string{"latest.build", "a-test.b"}},
 		c15Opt{"registry.consul.addr", "String", []string{"consul.test.internal:8500", "cfg.example:8500"}},
 		c15Opt{"ui.color", "String", []string{"-v", "version"}},
+		// text outside ASCII: every source has to agree on how it is decoded
+		c15Opt{"ui.title", "String", []string{"Straße", "日本 µ"}},
+		c15Opt{"registry.consul.register.tags", "StringSlice", []string{"grün,blau", "é"}},
 		c15Opt{"registry.static.routes", "String", []string{"route add a / http://h/ opts \"x=y\"", "route add b / http://h/ tags \"t\""}},
 	)
 	L.Set("options", len(opts))
